@@ -1,7 +1,7 @@
 (* Run/EvalProps.v — per-property projections of the state-machine trace.
    Each property compares only the part of the trace it speaks about, so an
    observable but unrelated rewrite does not alarm properties it does not touch. *)
-Require Export Verif.Run.EvalSM Verif.Model.Monitors Verif.Model.Monitors18 Verif.Model.Monitors2b Verif.Proofs.Monitor.
+Require Export Verif.Run.EvalSM Verif.Model.Monitors Verif.Model.Monitors18 Verif.Model.Monitors2b Verif.Model.Monitors11a Verif.Proofs.Monitor.
 Open Scope N_scope.
 
 Definition is_metric (f : metric -> bool) (a : action) : bool := match a with AMetric m => f m | _ => false end.
@@ -94,6 +94,8 @@ Definition step11x (q : q11x) (a : action) : option q11x :=
       end
   end.
 Definition mon_c11 (c : smcase) (t : list action) : bool :=
-  match c with KSm ep _ _ _ _ _ _ _ =>
-    match ep with EStart => accepts step11x {| base11 := init11; askdue11 := false |} t | EOneshot => true end end.
+  match c with KSm ep _ _ _ _ e _ _ =>
+    match ep with
+    | EStart => accepts step11x {| base11 := init11; askdue11 := false |} t && accepts step11a {| out11a := []; next11a := e_ctl e |} t
+    | EOneshot => true end end.
 Definition run_c11 := run_sm proj_c11 mon_c11.
